@@ -116,7 +116,16 @@ func (c *Client) before(r *Request) error {
 		r.Pre = o.Content
 	}
 	if c.Hook != nil {
-		return c.Hook.Before(r)
+		err := c.Hook.Before(r)
+		// the hook may have yielded to other actors: Pre is the content at the instant of effect
+		r.Pre = nil
+		if o := c.S.Objs[r.Key]; o != nil {
+			r.Pre = o.Content
+		}
+		if err != nil {
+			r.Post = r.Pre
+		}
+		return err
 	}
 	return nil
 }
